@@ -305,6 +305,8 @@ class Interp(object):
         self.serial = 0
         self.deferred = []
         self.task_ids = []
+        self.side = 0  # which "process" is logging (0 = origin; remote hand-offs get 1, 2, ..)
+        self.nsides = 0
 
     # -- helpers
     def _attach(self, ref, new_root=False):
@@ -623,6 +625,9 @@ class Interp(object):
 
         def remote():
             saved = self.stack
+            saved_side = self.side
+            self.nsides += 1
+            self.side = self.nsides
             self.stack = [ref]
             try:
                 try:
@@ -643,6 +648,7 @@ class Interp(object):
                     self._extra_finish(action, xf)
             finally:
                 self.stack = saved
+                self.side = saved_side
 
         if style == 7:
             self.deferred.append(lambda: contextvars.Context().run(remote))
